@@ -562,7 +562,7 @@ C16 = dict(
     summary_keys=["ops", "panics", "distinct_shapes"],
     ops_of=lambda ev: ev,
     assumptions=["the Go race detector decides the 'no data race' clause",
-                 "GetChanges/SaveChanges are snapshot reads: the change set over the nodes that existed before the run must be a complete trie without foreign nodes holding the content of the linearization point; an empty saved set is not judged",
+                 "GetChanges/SaveChanges are snapshot reads: the change set over the nodes that existed before the run must be a complete trie holding the content of the linearization point; an empty saved set is not judged",
                  "a rejected history stops the validation of the remaining histories in the same shard"],
 )
 
